@@ -34,6 +34,11 @@ var hostileClasses = map[string][]string{
 	"htmlblock": {"<div>", "<pre>", "<script>", "<!DOCTYPE x>", "<![CDATA[x]]>", "</div>", "<?php", "<table>"},
 	"punctedge": {"x.", "(y)", "\"q\"", "'s", "a,", "?!", "…", "“x”", "(", ")", ".", "¿x?", "x)", "(x"},
 	"fence":     {"```", "~~~", "```go", "~~~ x", "````", "``` x ```"},
+	// widened: what the library itself writes, supplied by the caller (the bullet the importer puts in front of an item,
+	// the front matter of IncludeMetadata), and symbols outside the BMP / outside ASCII at word edges (punctuation for
+	// the flanking rules)
+	"libgen":  {"•", "• x", "•x", "title:", "title: \"Document\"", "---", "[^1]:", "image_1.png"},
+	"symbols": {"😀", "x😀", "😀x", "😀😀", "©", "™x", "x€", "±1", "→", "x→y", "𝄞", "a𝄞"},
 }
 
 func hostileClassNames() []string {
